@@ -63,6 +63,17 @@ class PgEnv(Env):
         r0 = super().t_PartialEq__eq(M, st, th, ci, a)
         if r0 is not None: return r0
         x, y = a
+        def und(v):
+            for _ in range(6):
+                if isinstance(v, Ref): v = M.deref(st, v); continue
+                break
+            return v
+        ox, oy = und(x), und(y)
+        if isinstance(ox, Agg) and isinstance(oy, Agg) and ox.ty == 'Option' and oy.ty == 'Option':
+            # Option<T>: equal iff both None, or both Some with equal payloads
+            if ox.variant != oy.variant: return s.ret(st, False)
+            if ox.variant == 'None': return s.ret(st, True)
+            return s.t_PartialEq__eq(M, st, th, ci, [payload(ox), payload(oy)])
         def un(v):
             # &&&String ... : follow references down to the last one (sterm takes the final step)
             for _ in range(6):
